@@ -3,7 +3,9 @@
 Model: coq/Rules/ScatterND.v; theorems: coq/Props/C05_cast_scatter.v.
 Correspondence: fired? / raised? of ScatterAllStatic on hosts over (static / symbolic / unknown shapes, equal and different
 data/updates shapes, indices [[0]..[n-1]] / permuted / short / two-column / non-constant, reduction attribute) == ScatterND.sa_check.
-ScatterAllDynamic: a few hosts of the Shape-Gather-Range-Unsqueeze pattern, oracle only.  Direct oracle on both engines.
+ScatterAllDynamic: hosts of the Shape-Gather-Range-Unsqueeze pattern over (rank, axis incl. negative, permutation, static / symbolic /
+unknown dims, annotated or not, constant or non-constant axis): fired? is permitted by ScatterND.da_check (theorem C05_scatter_all_dynamic).
+Direct oracle on both engines.
 """
 from __future__ import annotations
 
@@ -123,35 +125,89 @@ def family(ctx):
                         [{"d": dd, "u": uu}, {"d": dd, "u": uu, "i": np.array([[0], [0], [0]], np.int64)}, {"d": dd, "u": uu, "i": np.array([[2], [2], [1]], np.int64)}])
 
     # ------------------------------------------------------------------ ScatterAllDynamic
+    # (runtime data shape, declared data shape, axis, perm, declared shape of the transposed data | "none" (no value_info), axis operand kind)
     dyn = 0
-    for dsh, axis, perm, expect in [([3, 4], 1, [1, 0], True), ([3, 4], 0, [0, 1], True), ([2, 3, 4], 2, [2, 0, 1], True), ([3, 4], 1, [0, 1], False), ([3, 3], 1, [0, 1], None)]:
-        tsh = [dsh[p] for p in perm]
-        inits = [U.const_arr("ax", np.array(axis, np.int64)), U.const_arr("zero", np.array(0, np.int64)), U.const_arr("one", np.array(1, np.int64)),
-                 U.const_arr("m1", np.array([-1], np.int64))]
+    dinsts = []
+    for dsh, axis, perm in [([3, 4], 1, [1, 0]), ([3, 4], 0, [0, 1]), ([2, 3, 4], 2, [2, 0, 1]), ([2, 3, 4], -1, [2, 0, 1]), ([2, 3, 4], -2, [1, 0, 2]),
+                            ([3, 4], 1, [0, 1]), ([3, 3], 1, [0, 1]), ([2, 3, 4], 0, [1, 0, 2]), ([1, 5], 1, [1, 0]), ([4], 0, [0])]:
+        tsh = [dsh[q] for q in perm]
+        dinsts.append((dsh, list(dsh), axis, perm, tsh, "const"))
+    rng = ctx.rng
+    for _ in range(6 if ctx.tier == "quick" else 40):
+        r = rng.randrange(1, 4)
+        dsh = [rng.randrange(1, 4) for _ in range(r)]
+        perm = list(range(r))
+        rng.shuffle(perm)
+        axis = rng.randrange(-r, r)
+        dinsts.append((dsh, list(dsh), axis, perm, [dsh[q] for q in perm], "const"))
+    dinsts += [
+        ([3, 4], ["N", 4], 0, [0, 1], ["N", 4], "const"),            # same symbol on both sides
+        ([3, 4], [3, "M"], 1, [1, 0], ["M", 3], "const"),
+        ([3, 3], ["N", "M"], 0, [1, 0], ["M", "N"], "const"),        # different symbols (equal at run time here): must not fire
+        ([3, 4], [None, 4], 0, [0, 1], [None, 4], "const"),          # unknown dims are not known to be equal
+        ([3, 4], [3, 4], 1, [1, 0], "none", "const"),                # transposed data without annotation
+        ([3, 4], [3, 4], 1, [1, 0], [4, 3], "input"),                # axis not a constant
+        ([3, 4], [3, 4], 1, [1, 0], [4, 3], "vector2"),              # axis a two-element constant: Gather yields two dims (host invalid for Range) -> no fire
+    ]
+    dcases, dmeta = [], []
+    dfired = 0
+    for dsh, ddecl, axis, perm, tdecl, akind in dinsts:
+        tsh = [dsh[q] for q in perm]
+        n_upd = dsh[axis]
+        ush = [n_upd] + tsh[1:]
+        inits = [U.const_arr("zero", np.array(0, np.int64)), U.const_arr("one", np.array(1, np.int64)), U.const_arr("m1", np.array([-1], np.int64))]
+        inputs = [("data", "float32", ddecl), ("upd", "float32", ush)]
+        if akind == "const":
+            inits.append(U.const_arr("ax", np.array(axis, np.int64)))
+        elif akind == "vector2":
+            inits.append(U.const_arr("ax", np.array([axis, axis], np.int64)))
+        else:
+            inputs.append(("ax", "int64", []))
         nodes = [helper.make_node("Transpose", ["data"], ["td"], perm=perm),
                  helper.make_node("Shape", ["data"], ["shape"], start=0),
                  helper.make_node("Gather", ["shape", "ax"], ["dim"], axis=0),
                  helper.make_node("Range", ["zero", "dim", "one"], ["rng"]),
                  helper.make_node("Unsqueeze", ["rng", "m1"], ["idx"]),
                  helper.make_node("ScatterND", ["td", "idx", "upd"], ["y"], reduction="none")]
-        host = U.model(nodes, [("data", "float32", dsh), ("upd", "float32", tsh)], [("y", "float32", tsh)], inits=inits,
-                       value_info=[("td", "float32", tsh)], opset=18)
+        vinfo = [] if tdecl == "none" else [("td", "float32", tdecl)]
+        try:
+            host = U.model(nodes, inputs, [("y", "float32", None if tdecl == "none" else tdecl)], inits=inits, value_info=vinfo, opset=18)
+        except Exception:  # noqa: BLE001
+            continue
+        replay = {"family": "scatter", "rule": "ScatterAllDynamic", "data": ddecl, "axis": axis, "perm": perm, "transposed_decl": tdecl, "axis_kind": akind}
         try:
             new = U.apply_rule(host, [mod.no_op_dynamic_scatter_nd_rule])
+            ynode = [nd for nd in new.graph.node if "y" in nd.output][0]
+            fired = ynode.op_type == "Identity"
+            obs = "Fire" if fired else "NoFire"
         except Exception as e:  # noqa: BLE001
-            ctx.violation("C05:scatternd-dynamic:raises", f"rule raised {_root(e)!r}", {"data": dsh, "axis": axis, "perm": perm})
-            continue
-        ynode = [nd for nd in new.graph.node if "y" in nd.output][0]
-        fired = ynode.op_type == "Identity"
+            ctx.violation("C05:scatternd-dynamic:raises", f"rule raised {_root(e)!r}", replay)
+            fired, obs = False, "Raises"
         dyn += 1
-        ctx.case(("scatter-dynamic", tuple(dsh), axis, tuple(perm), fired))
-        if expect is False and fired:
-            pass   # judged by the oracle
+        ctx.case(("scatter-dynamic", len(dsh), axis, tuple(perm), akind, tdecl == "none", tuple(type(d).__name__ for d in ddecl), obs))
+        sd = clist([_dim(d) for d in ddecl])
+        st = "None" if tdecl == "none" else f"(Some {clist([_dim(d) for d in tdecl])})"
+        sa = f"(Some {cz(axis)})" if akind == "const" else "None"
+        dcases.append(f"(Some {sd}, {st}, {sa}, {obs})")
+        dmeta.append((ddecl, tdecl, axis, perm, akind, obs))
         if fired:
-            feeds = [{"data": U.int_data(dsh, "float32", k), "upd": U.int_data(tsh, "float32", (k + 1) % 3) * 3} for k in range(3)]
-            good, cmp_ = U.oracle(ctx, "C05:scatternd-dynamic:differs", f"ScatterND(Transpose(data{dsh},{perm}), range(shape[{axis}]), upd)", host, new, feeds,
-                                  {"family": "scatter", "rule": "ScatterAllDynamic", "data": dsh, "axis": axis, "perm": perm})
-    ctx.cover(scatter_static_instances=len(cases), scatter_static_fired=fired_n, scatter_static_raised=raised, scatter_dynamic_hosts=dyn,
-              scatter_model_disagreements=len(bad))
+            dfired += 1
+            feeds = [{"data": U.int_data(dsh, "float32", k), "upd": U.int_data(ush, "float32", (k + 1) % 3) * 3} for k in range(3)]
+            if akind == "input":
+                for f in feeds:
+                    f["ax"] = np.array(axis, np.int64)
+            U.oracle(ctx, "C05:scatternd-dynamic:differs", f"ScatterND(Transpose(data{ddecl},{perm}), range(shape[{axis}]), upd)", host, new, feeds, replay)
+    ok, vals_, raw = ctx.coq_eval(["OV.Rules.ScatterND"], f"Definition dcases : list dcase := {clist(dcases)}.\nEval vm_compute in (ddisagreeing 0 dcases).", name="scatter_dyn")
+    if not ok:
+        ctx.tie_broken("correspondence", "scatter:dynamic-model-evaluation", raw[-800:])
+        return
+    dbad = common.parse_nat_list(vals_[0])
+    for i in dbad[:5]:
+        ctx.tie_broken("correspondence", "scatter:ScatterAllDynamic", f"(data decl, transposed decl, axis, perm, axis kind, observed) = {dmeta[i]}: not permitted by ScatterND.da_check")
+    ctx.obligation("correspondence scatter: ScatterAllDynamic fires / raises only where Rules/ScatterND.v `da_check` says so", not dbad)
+    U.guard(ctx, "scatter:ScatterAllDynamic", dfired, 6)
+    ctx.cover(scatter_static_instances=len(cases), scatter_static_fired=fired_n, scatter_static_raised=raised, scatter_dynamic_hosts=dyn, scatter_dynamic_fired=dfired,
+              scatter_model_disagreements=len(bad), scatter_dynamic_model_disagreements=len(dbad))
     ctx.sample({"family": "scatter", "case": [str(x) for x in meta[len(meta) // 2]]})
-    ctx.assume("ScatterAllDynamic is exercised by the direct oracle only (no Coq model of the Shape/Gather/Range/Unsqueeze index construction)")
+    ctx.assume("ScatterAllDynamic: Shape/Gather/Range/Unsqueeze are read as 'the extent of data along `axis`, as the index rows [[0],..,[n-1]]' (operator documents); "
+               "annotations of the host are truthful; ScatterND's shape rule gives `updates` one row per index row")
